@@ -2,7 +2,1246 @@
   Lemmas/SchedC14.lean — helper lemmas for Props/C14.lean (pass-level reasoning on top of Lemmas/SchedPass.lean).
 -/
 import PjVerif.Lemmas.SchedPass
+import PjVerif.Lemmas.Fuel
 import PjVerif.Spec.Sched2
 namespace Pj
+
+/-! ### "never a crash" -/
+
+/-- the result is `ok` or the diagnosis `runtime` -/
+def NoCrash {α : Type} (r : Res α) : Prop := ∀ k, r ≠ .error (.crash k)
+
+theorem NoCrash.ok {α : Type} (a : α) : NoCrash (.ok a : Res α) := fun _ h => by cases h
+
+theorem NoCrash.pure {α : Type} (a : α) : NoCrash (pure a : Res α) := fun _ h => by cases h
+
+theorem NoCrash.runtime {α : Type} : NoCrash (.error .runtime : Res α) := fun _ h => by cases h
+
+theorem NoCrash.throw {α : Type} : NoCrash (throw .runtime : Res α) := fun _ h => by cases h
+
+theorem NoCrash.bind {α β : Type} {x : Res α} {g : α → Res β} (hx : NoCrash x)
+    (hg : ∀ a, x = .ok a → NoCrash (g a)) : NoCrash (x >>= g) := by
+  cases x with
+  | error e =>
+    intro k h
+    cases e with
+    | runtime => cases h
+    | crash k' => exact hx k' rfl
+  | ok a => exact hg a rfl
+
+theorem NoCrash.cases {α : Type} {r : Res α} (h : NoCrash r) : (∃ a, r = .ok a) ∨ r = .error .runtime := by
+  cases r with
+  | ok a => exact Or.inl ⟨a, rfl⟩
+  | error e =>
+    cases e with
+    | runtime => exact Or.inr rfl
+    | crash k => exact absurd rfl (h k)
+
+theorem NoCrash.foldlM {α β : Type} (f : β → α → Res β) (l : List α) (P : β → Prop)
+    (hstep : ∀ b a, a ∈ l → P b → NoCrash (f b a) ∧ ∀ b', f b a = .ok b' → P b') :
+    ∀ b, P b → NoCrash (l.foldlM f b) := by
+  induction l with
+  | nil => intro b _; exact NoCrash.pure b
+  | cons a l ih =>
+    intro b hb
+    rw [List.foldlM_cons]
+    obtain ⟨h1, h2⟩ := hstep b a List.mem_cons_self hb
+    refine NoCrash.bind h1 ?_
+    intro b' hb'
+    exact ih (fun b a ha => hstep b a (List.mem_cons_of_mem _ ha)) b' (h2 b' hb')
+
+/-! ### a dead resource (C14, last clause) -/
+
+theorem search_fwd_dead (cal : Cal) : ∀ (fuel : Nat) (t : Time),
+    (∀ k : Nat, k < fuel → ∃ c, capR cal (t + (k : Rat)) = .ok c ∧ c ≤ 0) →
+    search cal 1 fuel t = .error .runtime := by
+  intro fuel
+  induction fuel with
+  | zero => intro t _; rfl
+  | succ fuel ih =>
+    intro t h
+    obtain ⟨c, hc, hc0⟩ := h 0 (Nat.succ_pos _)
+    have ht : t + ((0 : Nat) : Rat) = t := by simp [Rat.add_zero]
+    rw [ht] at hc
+    unfold search
+    simp only [show ¬ ((1 : Int) < 0) by decide, if_false, hc, bind, Except.bind]
+    rw [if_neg (by grind)]
+    apply ih
+    intro k hk
+    obtain ⟨c', hc', hc0'⟩ := h (k + 1) (Nat.succ_lt_succ hk)
+    refine ⟨c', ?_, hc0'⟩
+    rw [← hc']
+    congr 1
+    simp
+    grind
+
+theorem search_bwd_dead (cal : Cal) : ∀ (fuel : Nat) (t : Time),
+    (∀ k : Nat, k < fuel → ∃ c, capR cal (t - (k : Rat) - 1) = .ok c ∧ c ≤ 0) →
+    search cal (-1) fuel t = .error .runtime := by
+  intro fuel
+  induction fuel with
+  | zero => intro t _; rfl
+  | succ fuel ih =>
+    intro t h
+    obtain ⟨c, hc, hc0⟩ := h 0 (Nat.succ_pos _)
+    have ht : t - ((0 : Nat) : Rat) - 1 = t - 1 := by simp [Rat.sub_eq_add_neg, Rat.add_zero]
+    rw [ht] at hc
+    unfold search
+    simp only [show ((-1 : Int) < 0) by decide, if_true, hc, bind, Except.bind]
+    rw [if_neg (by grind)]
+    apply ih
+    intro k hk
+    obtain ⟨c', hc', hc0'⟩ := h (k + 1) (Nat.succ_lt_succ hk)
+    refine ⟨c', ?_, hc0'⟩
+    rw [← hc']
+    congr 1
+    simp
+    grind
+
+theorem nearestFwd_dead (cal : Cal) (used : Int → Rat) (start : Time)
+    (hdead : ∀ k : Nat, k < Extracted.maxDays → ∃ c, capR cal (midnight start + (k : Rat)) = .ok c ∧ c ≤ 0) :
+    nearestFwd cal used start = .error .runtime := by
+  unfold nearestFwd
+  rw [search_fwd_dead cal _ _ hdead]
+  rfl
+
+theorem nearestBwd_dead (cal : Cal) (used : Int → Rat) (start : Time)
+    (hdead : ∀ k : Nat, k < Extracted.maxDays → ∃ c, capR cal (midnight start - (k : Rat) - 1) = .ok c ∧ c ≤ 0) :
+    nearestBwd cal used start = .error .runtime := by
+  unfold nearestBwd
+  rw [search_bwd_dead cal _ _ hdead]
+  rfl
+
+/-! ### soundness of the depth-first cycle check -/
+
+/-- `S` is closed under `next` -/
+def DClosed (next : Uid → List Uid) (S : List Uid) : Prop := ∀ x ∈ S, ∀ y ∈ next x, y ∈ S
+/-- no node of `S` lies on a cycle -/
+def DAcyc (next : Uid → List Uid) (S : List Uid) : Prop := ∀ x ∈ S, ¬ TC (fun a b => b ∈ next a) x x
+
+theorem DClosed.reach {next : Uid → List Uid} {S : List Uid} (hc : DClosed next S) {x y : Uid} (hx : x ∈ S)
+    (h : TC (fun a b => b ∈ next a) x y) : y ∈ S := by
+  induction h with
+  | single h => exact hc _ hx _ h
+  | tail _ h ih => exact hc _ ih _ h
+
+/-- what a successful (part of a) search guarantees about the validated set it returns -/
+structure DfsOK (next : Uid → List Uid) (vis val v : List Uid) : Prop where
+  closed : DClosed next v
+  acyc : DAcyc next v
+  sub : ∀ x ∈ val, x ∈ v
+  fresh : ∀ x ∈ v, x ∈ val ∨ x ∉ vis
+
+theorem DfsOK.refl {next : Uid → List Uid} {vis val : List Uid} (hc : DClosed next val) (ha : DAcyc next val) :
+    DfsOK next vis val val := ⟨hc, ha, fun _ h => h, fun _ h => Or.inl h⟩
+
+theorem DfsOK.trans {next : Uid → List Uid} {vis a b c : List Uid} (h1 : DfsOK next vis a b)
+    (h2 : DfsOK next vis b c) : DfsOK next vis a c :=
+  ⟨h2.closed, h2.acyc, fun x hx => h2.sub x (h1.sub x hx), fun x hx => by
+    rcases h2.fresh x hx with h | h
+    · exact h1.fresh x h
+    · exact Or.inr h⟩
+
+theorem dfs_fold_ok (next : Uid → List Uid) (vis : List Uid) (step : List Uid → Uid → Res (List Uid))
+    (hstep : ∀ val s v, step val s = .ok v → DClosed next val → DAcyc next val → DfsOK next vis val v ∧ s ∈ v) :
+    ∀ (ss : List Uid) (val v : List Uid), ss.foldlM step val = .ok v → DClosed next val → DAcyc next val →
+      DfsOK next vis val v ∧ ∀ s ∈ ss, s ∈ v := by
+  intro ss
+  induction ss with
+  | nil =>
+    intro val v h hc ha
+    cases h
+    exact ⟨DfsOK.refl hc ha, fun s hs => by cases hs⟩
+  | cons s ss ih =>
+    intro val v h hc ha
+    rw [List.foldlM_cons] at h
+    cases h1 : step val s with
+    | error e => rw [h1] at h; cases h
+    | ok v1 =>
+      rw [h1] at h
+      obtain ⟨d1, hs1⟩ := hstep val s v1 h1 hc ha
+      obtain ⟨d2, hs2⟩ := ih v1 v h d1.closed d1.acyc
+      refine ⟨d1.trans d2, ?_⟩
+      intro x hx
+      rcases List.mem_cons.1 hx with rfl | hx
+      · exact d2.sub _ hs1
+      · exact hs2 x hx
+
+theorem loopsFrom_ok (next : Uid → List Uid) : ∀ (fuel : Nat) (vis val : List Uid) (t : Uid) (v : List Uid),
+    loopsFrom next fuel vis val t = .ok v → DClosed next val → DAcyc next val →
+      DfsOK next vis val v ∧ t ∈ v := by
+  intro fuel
+  induction fuel with
+  | zero => intro vis val t v h; cases h
+  | succ fuel ih =>
+    intro vis val t v h hc ha
+    unfold loopsFrom at h
+    split at h
+    · rename_i hv
+      cases h
+      exact ⟨DfsOK.refl hc ha, List.contains_iff_mem.1 hv⟩
+    · rename_i hv
+      split at h
+      · cases h
+      · rename_i hvis
+        have htval : t ∉ val := fun hc' => hv (List.contains_iff_mem.2 hc')
+        have htvis : t ∉ vis := fun hc' => hvis (List.contains_iff_mem.2 hc')
+        simp only [bind, Except.bind] at h
+        split at h
+        · cases h
+        · rename_i v1 h1
+          cases h
+          obtain ⟨d, hs⟩ := dfs_fold_ok next (t :: vis) (fun val s => loopsFrom next fuel (t :: vis) val s)
+            (fun val s v => ih (t :: vis) val s v) (next t) val v1 h1 hc ha
+          have htv1 : t ∉ v1 := by
+            intro hc'
+            rcases d.fresh t hc' with h | h
+            · exact htval h
+            · exact h List.mem_cons_self
+          refine ⟨⟨?_, ?_, ?_, ?_⟩, by simp⟩
+          · intro x hx y hy
+            rcases List.mem_append.1 hx with hx | hx
+            · exact List.mem_append_left _ (d.closed x hx y hy)
+            · simp only [List.mem_singleton] at hx
+              subst hx
+              exact List.mem_append_left _ (hs y hy)
+          · intro x hx hcyc
+            rcases List.mem_append.1 hx with hx | hx
+            · exact d.acyc x hx hcyc
+            · simp only [List.mem_singleton] at hx
+              subst hx
+              rcases TC.head_cases hcyc with h | ⟨y, hy, hrest⟩
+              · exact htv1 (hs x h)
+              · exact htv1 (d.closed.reach (hs y hy) hrest)
+          · intro x hx
+            exact List.mem_append_left _ (d.sub x hx)
+          · intro x hx
+            rcases List.mem_append.1 hx with hx | hx
+            · rcases d.fresh x hx with h | h
+              · exact Or.inl h
+              · exact Or.inr (fun hc' => h (List.mem_cons_of_mem _ hc'))
+            · simp only [List.mem_singleton] at hx
+              subst hx
+              exact Or.inr htvis
+
+/-- the statement of `C14_loopsFrom_sound` -/
+theorem loopsFrom_sound (next : Uid → List Uid) (fuel : Nat) (starts : List Uid) (val : List Uid)
+    (h : starts.foldlM (fun v t => loopsFrom next fuel [] v t) [] = .ok val) :
+    ∀ t ∈ starts, ¬ TC (fun a b => b ∈ next a) t t := by
+  obtain ⟨d, hs⟩ := dfs_fold_ok next [] (fun v t => loopsFrom next fuel [] v t)
+    (fun val s v => loopsFrom_ok next fuel [] val s v) starts [] val h
+    (fun x hx => by cases hx) (fun x hx => by cases hx)
+  intro t ht
+  exact d.acyc t (hs t ht)
+
+/-! ### the cycle check never crashes on a bounded relation -/
+
+theorem loopsFrom_nocrash (next : Uid → List Uid) (n : Nat) (hb : ∀ a b, b ∈ next a → b < n) :
+    ∀ (fuel : Nat) (vis val : List Uid) (t : Uid), vis.Nodup → (∀ x ∈ vis, x < n) → t < n →
+      n + 2 ≤ fuel + vis.length → NoCrash (loopsFrom next fuel vis val t) := by
+  intro fuel
+  induction fuel with
+  | zero =>
+    intro vis val t hn hlt _ hf
+    have := nodup_lt_length_le n vis hn hlt
+    omega
+  | succ fuel ih =>
+    intro vis val t hn hlt ht hf
+    unfold loopsFrom
+    split
+    · exact NoCrash.pure _
+    · split
+      · exact NoCrash.throw
+      · rename_i hvis
+        have htvis : t ∉ vis := fun hc' => hvis (List.contains_iff_mem.2 hc')
+        refine NoCrash.bind ?_ (fun _ _ => NoCrash.pure _)
+        refine NoCrash.foldlM _ _ (fun _ => True) ?_ val trivial
+        intro b a ha _
+        refine ⟨ih (t :: vis) b a (List.nodup_cons.2 ⟨htvis, hn⟩) ?_ (hb t a ha) (by simp; omega), fun _ _ => trivial⟩
+        intro x hx
+        rcases List.mem_cons.1 hx with rfl | hx
+        · exact ht
+        · exact hlt x hx
+
+theorem loopsFold_nocrash (next : Uid → List Uid) (n : Nat) (hb : ∀ a b, b ∈ next a → b < n)
+    (starts : List Uid) (hs : ∀ t ∈ starts, t < n) :
+    NoCrash (starts.foldlM (fun v t => loopsFrom next (n + 2) [] v t) []) := by
+  refine NoCrash.foldlM _ _ (fun _ => True) ?_ [] trivial
+  intro b a ha _
+  exact ⟨loopsFrom_nocrash next n hb (n + 2) [] b a List.nodup_nil (fun x hx => by cases hx) (hs a ha) (by simp),
+    fun _ _ => trivial⟩
+
+/-! ### total calendars: the loops fail only with `runtime` -/
+
+/-- no query of the calendar raises -/
+def CalT (cal : Cal) : Prop := ∀ t, ∃ v, capR cal t = .ok v
+
+/-- all calendars of a resource table are total -/
+def CalsOK (res : List (Option Nat × Cal)) : Prop := ∀ p ∈ res, CalT p.2
+
+theorem defaultCal_total : CalT defaultCal := by
+  intro t
+  simp [defaultCal, capR, Cal.eval, bind, Except.bind, pure, Except.pure]
+
+theorem resLookup_cals (res : List (Option Nat × Cal)) (k : Option Nat) (h : CalsOK res) :
+    CalsOK (resLookup res k).1 ∧ CalT (resLookup res k).2 := by
+  unfold resLookup
+  cases hf : res.find? (fun p => p.1 == k) with
+  | some p => exact ⟨h, h p (List.mem_of_find?_eq_some hf)⟩
+  | none =>
+    refine ⟨?_, defaultCal_total⟩
+    intro p hp
+    rcases List.mem_append.1 hp with hp | hp
+    · exact h p hp
+    · simp only [List.mem_singleton] at hp
+      subst hp
+      exact defaultCal_total
+
+theorem search_nocrash (cal : Cal) (hc : CalT cal) (dir : Int) : ∀ (fuel : Nat) (t : Time),
+    NoCrash (search cal dir fuel t) := by
+  intro fuel
+  induction fuel with
+  | zero => intro t; exact NoCrash.throw
+  | succ fuel ih =>
+    intro t
+    unfold search
+    simp only
+    have hj : ∀ u : Rat, NoCrash (if 0 < u then pure t else search cal dir fuel (t + (dir : Rat))) := by
+      intro u
+      split
+      · exact NoCrash.pure _
+      · exact ih _
+    split
+    · obtain ⟨v, hv⟩ := hc (t - 1); rw [hv]; exact NoCrash.bind (NoCrash.ok v) (fun u _ => hj u)
+    · obtain ⟨v, hv⟩ := hc t; rw [hv]; exact NoCrash.bind (NoCrash.ok v) (fun u _ => hj u)
+
+theorem nearestFwdLoop_nocrash (cal : Cal) (hc : CalT cal) (used : Int → Rat) (hu : ∀ d, 0 ≤ used d) :
+    ∀ (k : Nat) (d : Time), NoCrash (nearestFwdLoop cal used k d) := by
+  intro k
+  induction k with
+  | zero => intro d; exact NoCrash.throw
+  | succ k ih =>
+    intro d
+    unfold nearestFwdLoop
+    obtain ⟨c, hcd⟩ := hc d
+    rw [hcd]
+    refine NoCrash.bind (NoCrash.ok c) ?_
+    intro c' hc'
+    cases hc'
+    simp only
+    split
+    · rename_i hav
+      have := hu (dayOf d)
+      rw [if_neg (by grind)]
+      exact NoCrash.pure _
+    · exact ih _
+
+theorem nearestBwdLoop_nocrash (cal : Cal) (hc : CalT cal) (used : Int → Rat) (hu : ∀ d, 0 ≤ used d) :
+    ∀ (k : Nat) (d : Time), NoCrash (nearestBwdLoop cal used k d) := by
+  intro k
+  induction k with
+  | zero => intro d; exact NoCrash.throw
+  | succ k ih =>
+    intro d
+    unfold nearestBwdLoop
+    obtain ⟨c, hcd⟩ := hc d
+    rw [hcd]
+    refine NoCrash.bind (NoCrash.ok c) ?_
+    intro c' hc'
+    cases hc'
+    simp only
+    split
+    · rename_i hav
+      have := hu (dayOf d)
+      rw [if_neg (by grind)]
+      exact NoCrash.pure _
+    · exact ih _
+
+theorem nearestFwd_nocrash (cal : Cal) (hc : CalT cal) (used : Int → Rat) (hu : ∀ d, 0 ≤ used d) (start : Time) :
+    NoCrash (nearestFwd cal used start) := by
+  unfold nearestFwd
+  exact NoCrash.bind (search_nocrash cal hc _ _ _) (fun _ _ => nearestFwdLoop_nocrash cal hc used hu _ _)
+
+theorem nearestBwd_nocrash (cal : Cal) (hc : CalT cal) (used : Int → Rat) (hu : ∀ d, 0 ≤ used d) (start : Time) :
+    NoCrash (nearestBwd cal used start) := by
+  unfold nearestBwd
+  exact NoCrash.bind (search_nocrash cal hc _ _ _) (fun _ _ => nearestBwdLoop_nocrash cal hc used hu _ _)
+
+theorem fillFwd_nocrash (cal : Cal) (hc : CalT cal) (used : Int → Rat) (maxSteps : Nat) :
+    ∀ (fuel days : Nat) (day : Int) (left dau : Rat) (acc : List (Int × Rat)),
+      NoCrash (fillFwd cal used maxSteps fuel days day left dau acc) := by
+  intro fuel
+  induction fuel with
+  | zero => intro days day left dau acc; exact NoCrash.throw
+  | succ fuel ih =>
+    intro days day left dau acc
+    by_cases hle : left ≤ 0
+    · simp only [fillFwd, if_pos hle]
+      exact NoCrash.pure _
+    · rw [fillFwd_succ _ _ _ _ _ _ _ _ _ hle]
+      obtain ⟨c, hcd⟩ := hc ((day + 1 : Int) : Rat)
+      rw [hcd]
+      refine NoCrash.bind (NoCrash.ok c) ?_
+      intro c' _
+      split
+      · exact NoCrash.throw
+      · exact ih _ _ _ _ _
+
+theorem fillBwd_nocrash (cal : Cal) (hc : CalT cal) (used : Int → Rat) (maxSteps : Nat) :
+    ∀ (fuel days : Nat) (day : Int) (left : Rat) (acc : List (Int × Rat)),
+      NoCrash (fillBwd cal used maxSteps fuel days day left acc) := by
+  intro fuel
+  induction fuel with
+  | zero => intro days day left acc; exact NoCrash.throw
+  | succ fuel ih =>
+    intro days day left acc
+    by_cases hle : left ≤ 0
+    · simp only [fillBwd, if_pos hle]
+      exact NoCrash.pure _
+    · rw [fillBwd_succ _ _ _ _ _ _ _ _ hle]
+      obtain ⟨c, hcd⟩ := hc ((day - 1 : Int) : Rat)
+      rw [hcd]
+      refine NoCrash.bind (NoCrash.ok c) ?_
+      intro c' _
+      split
+      · exact NoCrash.throw
+      · exact ih _ _ _ _
+
+theorem shiftFwd_nocrash (cal : Cal) (hc : CalT cal) (used : Int → Rat) (hu : ∀ d, 0 ≤ used d) (start : Time)
+    (left : Rat) (hl : 0 ≤ left) : NoCrash (shiftFwd cal used start left) := by
+  unfold shiftFwd
+  split
+  · exact NoCrash.pure _
+  · rename_i h0
+    refine NoCrash.bind (fillFwd_nocrash cal hc used _ _ _ _ _ _ _) ?_
+    rintro ⟨rows, day, dau⟩ hf
+    obtain ⟨new, hrows, hspec, _⟩ := fillFwd_spec cal used _ hu _ _ _ _ _ _ _ _ _ hl hf
+    have hne : new ≠ [] := by
+      intro hn
+      subst hn
+      have := hspec.total
+      simp at this
+      grind
+    obtain ⟨_, _, hdau⟩ := hspec.last hne
+    simp only
+    rw [if_neg (by grind)]
+    exact NoCrash.pure _
+
+theorem shiftBwd_nocrash (cal : Cal) (hc : CalT cal) (used : Int → Rat) (hu : ∀ d, 0 ≤ used d) (end_ : Time)
+    (left : Rat) (hl : 0 ≤ left) : NoCrash (shiftBwd cal used end_ left) := by
+  unfold shiftBwd
+  split
+  · exact NoCrash.pure _
+  · rename_i h0
+    refine NoCrash.bind (fillBwd_nocrash cal hc used _ _ _ _ _ _) ?_
+    rintro ⟨rows, day⟩ hf
+    obtain ⟨new, hrows, hspec, _⟩ := fillBwd_spec cal used _ _ _ _ _ _ _ _ hl hf
+    have hne : new ≠ [] := by
+      intro hn
+      subst hn
+      have := hspec.total
+      simp at this
+      grind
+    obtain ⟨u, hlast⟩ := hspec.last hne
+    obtain ⟨c, hcd, hu0, hu1⟩ := hspec.fits (day, u) (List.mem_of_getLast? hlast)
+    simp only at hcd hu0 hu1 ⊢
+    rw [hcd]
+    refine NoCrash.bind (NoCrash.ok c) ?_
+    intro c' hc'
+    cases hc'
+    have := hu day
+    rw [if_neg (by grind)]
+    exact NoCrash.pure _
+
+/-! ### a placement sets all four fields of its task -/
+
+def Full (g : Fields) : Prop := g.start.isSome ∧ g.end_.isSome ∧ g.est.isSome ∧ g.spent.isSome
+
+/-- every task that is done has start, end, estimate and spent -/
+def DoneFull (σ : SS) : Prop := ∀ x ∈ σ.done, Full (σ.f x)
+
+/-- no field that was set becomes unset -/
+def Keep (g g' : Fields) : Prop :=
+  (g.start.isSome → g'.start.isSome) ∧ (g.end_.isSome → g'.end_.isSome) ∧
+  (g.est.isSome → g'.est.isSome) ∧ (g.spent.isSome → g'.spent.isSome)
+
+theorem Keep.refl (g : Fields) : Keep g g := ⟨id, id, id, id⟩
+
+theorem Keep.trans {a b c : Fields} (h1 : Keep a b) (h2 : Keep b c) : Keep a c :=
+  ⟨fun h => h2.1 (h1.1 h), fun h => h2.2.1 (h1.2.1 h), fun h => h2.2.2.1 (h1.2.2.1 h),
+    fun h => h2.2.2.2 (h1.2.2.2 h)⟩
+
+theorem setF_same (σ : SS) (t : Uid) (g : Fields → Fields) : (setF σ t g).f t = g (σ.f t) := by
+  simp [setF]
+
+theorem fwdStart_sets (env : Env) (cal : Cal) (used : Int → Rat) (t : Uid) (m : Time) (σ σ' : SS)
+    (h : fwdStart env cal used t m σ = .ok σ') : (σ'.f t).start.isSome ∧ Keep (σ.f t) (σ'.f t) := by
+  unfold fwdStart at h
+  simp only at h
+  split at h
+  · rename_i s hs
+    cases h
+    exact ⟨by rw [hs]; rfl, Keep.refl _⟩
+  · split at h
+    · simp only [bind, Except.bind] at h
+      split at h
+      · cases h
+      · cases h
+        rw [setF_same]
+        exact ⟨rfl, fun _ => rfl, id, id, id⟩
+    · split at h
+      · cases h
+        rw [setF_same]
+        exact ⟨rfl, fun _ => rfl, id, id, id⟩
+      · cases h
+        rw [setF_same]
+        exact ⟨rfl, fun _ => rfl, id, id, id⟩
+
+theorem bwdEnd_sets (env : Env) (cal : Cal) (used : Int → Rat) (t : Uid) (m m' : Time) (σ σ' : SS)
+    (h : bwdEnd env cal used t m m' σ = .ok σ') : (σ'.f t).end_.isSome ∧ Keep (σ.f t) (σ'.f t) := by
+  unfold bwdEnd at h
+  simp only at h
+  split at h
+  · rename_i s hs
+    cases h
+    exact ⟨by rw [hs]; rfl, Keep.refl _⟩
+  · split at h
+    · simp only [bind, Except.bind] at h
+      split at h
+      · cases h
+      · cases h
+        rw [setF_same]
+        exact ⟨rfl, id, fun _ => rfl, id, id⟩
+    · split at h
+      · cases h
+        rw [setF_same]
+        exact ⟨rfl, id, fun _ => rfl, id, id⟩
+      · cases h
+        rw [setF_same]
+        exact ⟨rfl, id, fun _ => rfl, id, id⟩
+
+theorem fillEst_sets (env : Env) (t : Uid) (σ σ' : SS) (h : fillEst env t σ = .ok σ') :
+    (σ'.f t).est.isSome ∧ (σ'.f t).spent.isSome ∧ Keep (σ.f t) (σ'.f t) := by
+  unfold fillEst at h
+  simp only [bind, Except.bind] at h
+  split at h
+  · cases h
+  · rename_i σ1 h1
+    have s1 : (σ1.f t).est.isSome ∧ Keep (σ.f t) (σ1.f t) := by
+      split at h1
+      · rename_i e he
+        cases h1
+        exact ⟨by rw [he]; rfl, Keep.refl _⟩
+      · split at h1
+        · cases h1
+          rw [setF_same]
+          exact ⟨rfl, id, id, fun _ => rfl, id⟩
+        · split at h1
+          · cases h1
+          · cases h1
+            rw [setF_same]
+            exact ⟨rfl, id, id, fun _ => rfl, id⟩
+    have s2 : (σ'.f t).spent.isSome ∧ Keep (σ1.f t) (σ'.f t) := by
+      split at h
+      · rename_i e he
+        cases h
+        exact ⟨by rw [he]; rfl, Keep.refl _⟩
+      · split at h
+        · cases h
+          rw [setF_same]
+          exact ⟨rfl, id, id, id, fun _ => rfl⟩
+        · split at h
+          · cases h
+          · cases h
+            rw [setF_same]
+            exact ⟨rfl, id, id, id, fun _ => rfl⟩
+    exact ⟨s2.2.2.2.1 s1.1, s2.1, s1.2.trans s2.2⟩
+
+theorem fwdEnd_sets (env : Env) (cal : Cal) (used : Int → Rat) (t : Uid) (σ σ' : SS)
+    (h : fwdEnd env cal used t σ = .ok σ') : (σ'.f t).end_.isSome ∧ Keep (σ.f t) (σ'.f t) := by
+  unfold fwdEnd at h
+  simp only at h
+  split at h
+  · rename_i s hs
+    cases h
+    exact ⟨by rw [hs]; rfl, Keep.refl _⟩
+  · split at h
+    · simp only [bind, Except.bind] at h
+      split at h
+      · cases h
+      · cases h
+        rw [setF_same]
+        exact ⟨rfl, id, fun _ => rfl, id, id⟩
+    · split at h
+      · cases h
+      · cases h
+        rw [setF_same]
+        exact ⟨rfl, id, fun _ => rfl, id, id⟩
+
+theorem bwdStart_sets (env : Env) (cal : Cal) (used : Int → Rat) (t : Uid) (m : Time) (σ σ' : SS)
+    (h : bwdStart env cal used t m σ = .ok σ') : (σ'.f t).start.isSome ∧ Keep (σ.f t) (σ'.f t) := by
+  unfold bwdStart at h
+  simp only at h
+  split at h
+  · simp only [bind, Except.bind] at h
+    split at h
+    · cases h
+    · cases h
+      rw [setF_same]
+      exact ⟨rfl, fun _ => rfl, id, id, id⟩
+  · split at h
+    · cases h
+    · cases h
+      rw [setF_same]
+      exact ⟨rfl, fun _ => rfl, id, id, id⟩
+
+theorem fwdPlace_full (env : Env) (σ σ' : SS) (t : Uid) (m : Time) (h : fwdPlace env σ t m = .ok σ') :
+    Full (σ'.f t) := by
+  unfold fwdPlace at h
+  rcases hr : resLookup σ.res (env.info t).resource with ⟨res', cal⟩
+  simp only [hr, bind, Except.bind, pure, Except.pure] at h
+  split at h
+  · cases h
+    simp only [markDone, setF_same]
+    exact ⟨rfl, rfl, rfl, rfl⟩
+  · split at h
+    · cases h
+    · rename_i σ1 h1
+      split at h
+      · cases h
+      · rename_i σ2 h2
+        split at h
+        · cases h
+        · rename_i σ3 h3
+          cases h
+          obtain ⟨a1, _⟩ := fwdStart_sets _ _ _ _ _ _ _ h1
+          obtain ⟨b1, b2, b3⟩ := fillEst_sets _ _ _ _ h2
+          obtain ⟨c1, c3⟩ := fwdEnd_sets _ _ _ _ _ _ h3
+          exact ⟨c3.1 (b3.1 a1), c1, c3.2.2.1 b1, c3.2.2.2 b2⟩
+
+theorem bwdPlace_full (env : Env) (σ σ' : SS) (t : Uid) (m m' : Time) (h : bwdPlace env σ t m m' = .ok σ') :
+    Full (σ'.f t) := by
+  unfold bwdPlace at h
+  rcases hr : resLookup σ.res (env.info t).resource with ⟨res', cal⟩
+  simp only [hr, bind, Except.bind, pure, Except.pure] at h
+  split at h
+  · cases h
+    simp only [markDone, setF_same]
+    exact ⟨rfl, rfl, rfl, rfl⟩
+  · split at h
+    · cases h
+    · rename_i σ1 h1
+      split at h
+      · cases h
+      · rename_i σ2 h2
+        split at h
+        · cases h
+        · rename_i σ3 h3
+          cases h
+          obtain ⟨a1, _⟩ := bwdEnd_sets _ _ _ _ _ _ _ _ h1
+          obtain ⟨b1, b2, b3⟩ := fillEst_sets _ _ _ _ h2
+          obtain ⟨c1, c3⟩ := bwdStart_sets _ _ _ _ _ _ _ h3
+          exact ⟨c1, c3.2.1 (b3.2.1 a1), c3.2.2.1 b1, c3.2.2.2 b2⟩
+
+/-- the placement invariant "done ⇒ all fields set" -/
+theorem place_doneFull (σ σ' : SS) (t : Uid) (hi : DoneFull σ) (he : Ext σ σ') (hd : σ'.done = σ.done ++ [t])
+    (hf : Full (σ'.f t)) : DoneFull σ' := by
+  intro x hx
+  rw [hd] at hx
+  rcases List.mem_append.1 hx with hx | hx
+  · rw [he.frozen x hx]; exact hi x hx
+  · simp only [List.mem_singleton] at hx
+    subst hx
+    exact hf
+
+/-- the resource table of the state after a placement -/
+theorem place_cals_of_stage (env : Env) (σ σm : SS) (t : Uid) (new : List (Int × Rat)) (hc : CalsOK σ.res)
+    (hs : Stage env t new { σ with res := (resLookup σ.res (env.info t).resource).1 } σm) :
+    CalsOK (markDone σm t).res := by
+  show CalsOK σm.res
+  rw [hs.res]
+  exact (resLookup_cals σ.res _ hc).1
+
+/-! ### a placement never crashes when the calendars are total and the children are complete -/
+
+theorem sumOpt_fold_ok (f : Rat → Option Rat → Res Rat) (hf : ∀ acc x, ∃ r, f acc (some x) = .ok r) :
+    ∀ (l : List (Option Rat)) (acc : Rat), (∀ v ∈ l, v.isSome) → ∃ r, l.foldlM f acc = .ok r := by
+  intro l
+  induction l with
+  | nil => intro acc _; exact ⟨acc, rfl⟩
+  | cons v l ih =>
+    intro acc h
+    rw [List.foldlM_cons]
+    cases v with
+    | none => exact absurd (h none List.mem_cons_self) (by simp)
+    | some x =>
+      obtain ⟨r1, hr1⟩ := hf acc x
+      obtain ⟨r, hr⟩ := ih r1 (fun v hv => h v (List.mem_cons_of_mem _ hv))
+      rw [hr1]
+      exact ⟨r, hr⟩
+
+theorem sumOpt_nocrash (l : List (Option Rat)) (h : ∀ v ∈ l, v.isSome) : NoCrash (sumOpt l) := by
+  unfold sumOpt
+  have key : ∀ (f : Rat → Option Rat → Res Rat), (∀ acc x, ∃ r, f acc (some x) = .ok r) →
+      NoCrash (l.foldlM f 0) := by
+    intro f hf
+    obtain ⟨r, hr⟩ := sumOpt_fold_ok f hf l 0 h
+    rw [hr]
+    exact NoCrash.ok r
+  apply key
+  intro acc x
+  exact ⟨acc + x, rfl⟩
+
+theorem fwdStart_nocrash (env : Env) (cal : Cal) (hc : CalT cal) (used : Int → Rat) (hu : ∀ d, 0 ≤ used d)
+    (t : Uid) (m : Time) (σ : SS) : NoCrash (fwdStart env cal used t m σ) := by
+  unfold fwdStart
+  simp only
+  split
+  · exact NoCrash.pure _
+  · split
+    · exact NoCrash.bind (nearestFwd_nocrash cal hc used hu _) (fun _ _ => NoCrash.pure _)
+    · split
+      · exact NoCrash.pure _
+      · exact NoCrash.pure _
+
+theorem bwdEnd_nocrash (env : Env) (cal : Cal) (hc : CalT cal) (used : Int → Rat) (hu : ∀ d, 0 ≤ used d)
+    (t : Uid) (m m' : Time) (σ : SS) : NoCrash (bwdEnd env cal used t m m' σ) := by
+  unfold bwdEnd
+  simp only
+  split
+  · exact NoCrash.pure _
+  · split
+    · exact NoCrash.bind (nearestBwd_nocrash cal hc used hu _) (fun _ _ => NoCrash.pure _)
+    · split
+      · exact NoCrash.pure _
+      · exact NoCrash.pure _
+
+theorem fillEst_nocrash (env : Env) (t : Uid) (σ : SS)
+    (hk : ∀ c ∈ (env.info t).children, c ≠ t ∧ (σ.f c).est.isSome ∧ (σ.f c).spent.isSome) :
+    NoCrash (fillEst env t σ) := by
+  unfold fillEst
+  simp only
+  refine NoCrash.bind ?_ ?_
+  · split
+    · exact NoCrash.pure _
+    · split
+      · exact NoCrash.pure _
+      · refine NoCrash.bind (sumOpt_nocrash _ ?_) (fun _ _ => NoCrash.pure _)
+        intro v hv
+        obtain ⟨c, hc, rfl⟩ := List.mem_map.1 hv
+        exact (hk c hc).2.1
+  · intro σ1 h1
+    have hf : ∀ c ∈ (env.info t).children, σ1.f c = σ.f c := by
+      intro c hc
+      have hne := (hk c hc).1
+      split at h1
+      · cases h1; rfl
+      · split at h1
+        · cases h1; simp [setF, upd, hne]
+        · simp only [bind, Except.bind] at h1
+          split at h1
+          · cases h1
+          · cases h1; simp [setF, upd, hne]
+    split
+    · exact NoCrash.pure _
+    · split
+      · exact NoCrash.pure _
+      · refine NoCrash.bind (sumOpt_nocrash _ ?_) (fun _ _ => NoCrash.pure _)
+        intro v hv
+        obtain ⟨c, hc, rfl⟩ := List.mem_map.1 hv
+        rw [hf c hc]
+        exact (hk c hc).2.2
+
+theorem filterMap_ne_nil {α β : Type} (l : List α) (g : α → Option β) (hl : l.isEmpty = false)
+    (h : ∀ c ∈ l, (g c).isSome) : l.filterMap g ≠ [] := by
+  cases l with
+  | nil => simp at hl
+  | cons a l =>
+    have := h a List.mem_cons_self
+    cases hg : g a with
+    | none => rw [hg] at this; cases this
+    | some b => simp [hg]
+
+theorem fwdEnd_nocrash (env : Env) (cal : Cal) (hc : CalT cal) (used : Int → Rat) (hu : ∀ d, 0 ≤ used d)
+    (t : Uid) (σ : SS) (hk : ∀ c ∈ (env.info t).children, (σ.f c).end_.isSome) :
+    NoCrash (fwdEnd env cal used t σ) := by
+  unfold fwdEnd
+  simp only
+  split
+  · exact NoCrash.pure _
+  · split
+    · exact NoCrash.bind (shiftFwd_nocrash cal hc used hu _ _ (leftOf_nonneg _ _)) (fun _ _ => NoCrash.pure _)
+    · rename_i hl
+      split
+      · rename_i hnil
+        exact absurd hnil (filterMap_ne_nil _ _ (by simpa using hl) hk)
+      · exact NoCrash.pure _
+
+theorem bwdStart_nocrash (env : Env) (cal : Cal) (hc : CalT cal) (used : Int → Rat) (hu : ∀ d, 0 ≤ used d)
+    (t : Uid) (m : Time) (σ : SS) (hk : ∀ c ∈ (env.info t).children, (σ.f c).start.isSome) :
+    NoCrash (bwdStart env cal used t m σ) := by
+  unfold bwdStart
+  simp only
+  split
+  · exact NoCrash.bind (shiftBwd_nocrash cal hc used hu _ _ (leftOf_nonneg _ _)) (fun _ _ => NoCrash.pure _)
+  · rename_i hl
+    split
+    · rename_i hnil
+      exact absurd hnil (filterMap_ne_nil _ _ (by simpa using hl) hk)
+    · exact NoCrash.pure _
+
+theorem fwdPlace_nocrash (env : Env) (σ : SS) (t : Uid) (m : Time) (hc : CalsOK σ.res)
+    (hpos : ∀ r ∈ σ.rows, 0 < r.units) (hk : ∀ c ∈ (env.info t).children, c ≠ t ∧ Full (σ.f c)) :
+    NoCrash (fwdPlace env σ t m) := by
+  unfold fwdPlace
+  have hcal := (resLookup_cals σ.res (env.info t).resource hc).2
+  simp only
+  have hu : ∀ d, 0 ≤ usedBy env σ.rows (env.info t).resource t d := fun d => reserved_nonneg _ hpos _ _ _
+  split
+  · exact NoCrash.pure _
+  · refine NoCrash.bind (fwdStart_nocrash env _ hcal _ hu _ _ _) ?_
+    intro σ1 h1
+    have s1 := fwdStart_stage _ _ _ _ _ _ _ h1
+    refine NoCrash.bind (fillEst_nocrash env t σ1 ?_) ?_
+    · intro c hcc
+      obtain ⟨hne, hfull⟩ := hk c hcc
+      rw [s1.f c hne]
+      exact ⟨hne, hfull.2.2.1, hfull.2.2.2⟩
+    · intro σ2 h2
+      have s2 := fillEst_stage _ _ _ _ h2
+      refine NoCrash.bind (fwdEnd_nocrash env _ hcal _ hu _ _ ?_) (fun _ _ => NoCrash.pure _)
+      intro c hcc
+      obtain ⟨hne, hfull⟩ := hk c hcc
+      rw [s2.f c hne, s1.f c hne]
+      exact hfull.2.1
+
+theorem bwdPlace_nocrash (env : Env) (σ : SS) (t : Uid) (m m' : Time) (hc : CalsOK σ.res)
+    (hpos : ∀ r ∈ σ.rows, 0 < r.units) (hk : ∀ c ∈ (env.info t).children, c ≠ t ∧ Full (σ.f c)) :
+    NoCrash (bwdPlace env σ t m m') := by
+  unfold bwdPlace
+  have hcal := (resLookup_cals σ.res (env.info t).resource hc).2
+  simp only
+  have hu : ∀ d, 0 ≤ usedBy env σ.rows (env.info t).resource t d := fun d => reserved_nonneg _ hpos _ _ _
+  split
+  · exact NoCrash.pure _
+  · refine NoCrash.bind (bwdEnd_nocrash env _ hcal _ hu _ _ _ _) ?_
+    intro σ1 h1
+    have s1 := bwdEnd_stage _ _ _ _ _ _ _ _ h1
+    refine NoCrash.bind (fillEst_nocrash env t σ1 ?_) ?_
+    · intro c hcc
+      obtain ⟨hne, hfull⟩ := hk c hcc
+      rw [s1.f c hne]
+      exact ⟨hne, hfull.2.2.1, hfull.2.2.2⟩
+    · intro σ2 h2
+      have s2 := fillEst_stage _ _ _ _ h2
+      refine NoCrash.bind (bwdStart_nocrash env _ hcal _ hu _ _ _ ?_) (fun _ _ => NoCrash.pure _)
+      intro c hcc
+      obtain ⟨hne, hfull⟩ := hk c hcc
+      rw [s2.f c hne, s1.f c hne]
+      exact hfull.1
+
+/-! ### the recursive pass never crashes when its call graph is acyclic -/
+
+/-- the calls a pass makes from a task satisfying `Q`: same-side links and children -/
+def callE (env : Env) (links kids : Uid → List Uid) (Q : Uid → Prop) (a b : Uid) : Prop :=
+  Q a ∧ ((b ∈ links a ∧ (env.info b).member = (env.info a).member) ∨ b ∈ kids a)
+
+/-- `stk` (innermost first) is a chain of calls that leads to `t` -/
+def IsStk (E : Uid → Uid → Prop) : List Uid → Uid → Prop
+  | [], _ => True
+  | s :: stk, t => E s t ∧ IsStk E stk s
+
+theorem IsStk.reach {E : Uid → Uid → Prop} : ∀ {stk : List Uid} {t : Uid}, IsStk E stk t → ∀ x ∈ stk, TC E x t
+  | [], _, _, x, hx => by cases hx
+  | s :: stk, t, h, x, hx => by
+    rcases List.mem_cons.1 hx with rfl | hx
+    · exact TC.single h.1
+    · exact TC.tail (IsStk.reach h.2 x hx) h.1
+
+theorem IsStk.nodup {E : Uid → Uid → Prop} (hac : ∀ x, ¬ TC E x x) :
+    ∀ {stk : List Uid} {t : Uid}, IsStk E stk t → (t :: stk).Nodup
+  | [], _, _ => by simp
+  | s :: stk, t, h => by
+    refine List.nodup_cons.2 ⟨fun hc => hac t (IsStk.reach h t hc), IsStk.nodup hac h.2⟩
+
+theorem passList_nocrash (I : SS → Prop) (step : SS → Uid → Res SS) :
+    ∀ (xs : List Uid), (∀ σ x, x ∈ xs → I σ → NoCrash (step σ x) ∧ ∀ σ', step σ x = .ok σ' → I σ') →
+      ∀ σ, I σ → NoCrash (passList step σ xs) := by
+  intro xs
+  induction xs with
+  | nil => intro _ σ _; exact NoCrash.pure σ
+  | cons x xs ih =>
+    intro hstep σ hi
+    simp only [passList]
+    obtain ⟨h1, h2⟩ := hstep σ x List.mem_cons_self hi
+    refine NoCrash.bind h1 ?_
+    intro σ1 hσ1
+    exact ih (fun σ y hy => hstep σ y (List.mem_cons_of_mem _ hy)) σ1 (h2 σ1 hσ1)
+
+section generic
+variable (env : Env) (links kids : Uid → List Uid) (agg : SS → List Uid → Time → Time)
+  (place : SS → Uid → Time → Time → Res SS)
+  (hplace_ext : ∀ σ σ' t m v, t ∉ σ.done → place σ t m v = .ok σ' → Ext σ σ' ∧ σ'.done = σ.done ++ [t])
+include hplace_ext
+
+theorem gPass_nocrash (I : SS → Prop) (Q : Uid → Prop) (n : Nat)
+    (hplace : ∀ σ σ' t m v, Q t → I σ → t ∉ σ.done → (∀ c ∈ kids t, c ∈ σ.done) → place σ t m v = .ok σ' → I σ')
+    (hplace_nc : ∀ σ t m v, Q t → I σ → t ∉ σ.done → (∀ c ∈ kids t, c ∈ σ.done) → NoCrash (place σ t m v))
+    (hkids : ∀ t c, Q t → c ∈ kids t → Q c)
+    (hlinks : ∀ t p, Q t → p ∈ links t → (env.info p).member = (env.info t).member → Q p)
+    (hlt : ∀ t, Q t → t < n)
+    (hac : ∀ x, ¬ TC (callE env links kids Q) x x) :
+    ∀ (fuel : Nat) (stk : List Uid) (σ : SS) (t : Uid) (m : Time), Q t → I σ →
+      IsStk (callE env links kids Q) stk t → (∀ x ∈ stk, Q x) → n + 1 ≤ fuel + stk.length →
+      NoCrash (gPass env links kids agg place fuel stk σ t m) := by
+  intro fuel
+  induction fuel with
+  | zero =>
+    intro stk σ t m hq _ hstk hqs hf
+    have hn := IsStk.nodup hac hstk
+    have := nodup_lt_length_le n (t :: stk) hn (fun x hx => by
+      rcases List.mem_cons.1 hx with rfl | hx
+      · exact hlt _ hq
+      · exact hlt x (hqs x hx))
+    simp only [List.length_cons] at this
+    omega
+  | succ fuel ih =>
+    intro stk σ t m hq hi hstk hqs hf
+    have hinv := gPass_inv env links kids agg place hplace_ext I Q hplace hkids hlinks
+    have hx := gPass_extS env links kids agg place hplace_ext fuel (t :: stk)
+    have hqs' : ∀ x ∈ t :: stk, Q x := by
+      intro x hx
+      rcases List.mem_cons.1 hx with rfl | hx
+      · exact hq
+      · exact hqs x hx
+    have hf' : n + 1 ≤ fuel + (t :: stk).length := by simp only [List.length_cons]; omega
+    simp only [gPass]
+    split
+    · exact NoCrash.pure _
+    · rename_i hd
+      have hd' : t ∉ σ.done := fun hc => hd (List.contains_iff_mem.2 hc)
+      split
+      · rename_i hs
+        exact absurd (IsStk.reach hstk t (List.contains_iff_mem.1 hs)) (hac t)
+      · refine NoCrash.bind ?_ ?_
+        · refine passList_nocrash I _ _ ?_ σ hi
+          intro a p hp ha
+          split
+          · rename_i hm
+            have hm' : (env.info p).member = (env.info t).member := by simpa using hm
+            have hqp := hlinks t p hq hp hm'
+            exact ⟨ih (t :: stk) a p m hqp ha ⟨⟨hq, Or.inl ⟨hp, hm'⟩⟩, hstk⟩ hqs' hf',
+              fun σ' hh => hinv fuel (t :: stk) a p m σ' hqp ha hh⟩
+          · exact ⟨NoCrash.pure _, fun σ' hh => by cases hh; exact ha⟩
+        · intro σ1 h1
+          have e1 : ExtS (t :: stk) σ σ1 := passList_extS _ _ _ (fun a x b _ hh => by
+            split at hh
+            · exact (hx _ _ _ _ hh).1
+            · cases hh; exact ExtS.refl _ _) _ _ h1
+          have i1 : I σ1 := passList_inv I _ _ (fun a x b hxl ha hh => by
+            split at hh
+            · rename_i hm
+              exact hinv _ _ _ _ _ _ (hlinks t x hq hxl (by simpa using hm)) ha hh
+            · cases hh; exact ha) _ _ hi h1
+          refine NoCrash.bind ?_ ?_
+          · refine passList_nocrash I _ _ ?_ σ1 i1
+            intro a c hc ha
+            have hqc := hkids t c hq hc
+            exact ⟨ih (t :: stk) a c _ hqc ha ⟨⟨hq, Or.inr hc⟩, hstk⟩ hqs' hf',
+              fun σ' hh => hinv fuel (t :: stk) a c _ σ' hqc ha hh⟩
+          · intro σ2 h2
+            have e2 : ExtS (t :: stk) σ1 σ2 := passList_extS _ _ _ (fun a x b _ hh => (hx _ _ _ _ hh).1) _ _ h2
+            have ht2 : t ∉ σ2.done := (e1.trans e2).2 t List.mem_cons_self hd'
+            have i2 : I σ2 := passList_inv I _ _ (fun a x b hxl ha hh =>
+              hinv _ _ _ _ _ _ (hkids t x hq hxl) ha hh) _ _ i1 h2
+            have hk : ∀ c ∈ kids t, c ∈ σ2.done := passList_all_done _ _ (fun a x b _ hh =>
+              ⟨(hx _ _ _ _ hh).1.1, (hx _ _ _ _ hh).2⟩) _ _ h2
+            exact hplace_nc _ _ _ _ hq i2 ht2 hk
+
+end generic
+
+/-! ### the well-formed environment -/
+
+/-- the structural invariants of the WBS handed to `calc` (field for field the `EnvWF` of Props/C14.lean) -/
+structure WFE (env : Env) : Prop where
+  rootsLt : ∀ r ∈ env.roots, r < env.n
+  childLt : ∀ a c, c ∈ (env.info a).children → c < env.n
+  predLt : ∀ a p, p ∈ (env.info a).preds → p < env.n
+  succLt : ∀ a p, p ∈ (env.info a).succs → p < env.n
+  parentIff : ∀ c p, (env.info c).parent = some p ↔ c ∈ (env.info p).children
+  childrenNodup : ∀ p, (env.info p).children.Nodup
+  rootsNodup : env.roots.Nodup
+  rootsTop : ∀ r ∈ env.roots, (env.info r).parent = none
+  forest : ∀ x, ¬ TC (fun a b => b ∈ (env.info a).children) x x
+  sym : ∀ a b, a ∈ (env.info b).preds ↔ b ∈ (env.info a).succs
+  dag : ∀ x, ¬ TC (fun a b => a ∈ (env.info b).preds) x x
+  noAncDep : ∀ a b, a ∈ (env.info b).preds →
+    ¬ TC (fun x y => y ∈ (env.info x).children) a b ∧ ¬ TC (fun x y => y ∈ (env.info x).children) b a
+  flags : env.flagsOK
+
+/-- the children function as a `next` relation -/
+abbrev kidsOf (env : Env) : Uid → List Uid := fun u => (env.info u).children
+
+/-- "is a child of" -/
+abbrev chE (env : Env) : Uid → Uid → Prop := fun a b => b ∈ (env.info a).children
+
+theorem WFE.descF_total {env : Env} (hw : WFE env) (t : Uid) : ∃ l, descF (kidsOf env) (env.n + 1) t = some l :=
+  descF_total_of_acyclic (kidsOf env) env.n hw.forest hw.childLt t
+
+theorem WFE.members_total {env : Env} (hw : WFE env) : ∃ mem, members env = some mem := by
+  obtain ⟨ll, hll⟩ := mapM_total (fun r => subtreeF (kidsOf env) (env.n + 1) r) env.roots (fun r _ => by
+    obtain ⟨l, hl⟩ := hw.descF_total r
+    exact ⟨r :: l, by simp only [subtreeF, hl]; rfl⟩)
+  exact ⟨ll.flatten, by unfold members; show Option.map _ (List.mapM _ env.roots) = _; rw [hll]; rfl⟩
+
+/-- the members are the roots and their descendants -/
+theorem members_iff (env : Env) (mem : List Uid) (hm : members env = some mem) (x : Uid) :
+    x ∈ mem ↔ ∃ r ∈ env.roots, x = r ∨ TC (chE env) r x := by
+  constructor
+  · intro hx
+    obtain ⟨r, hr, l, hl, hxl⟩ := (members_spec env mem hm).2 x hx
+    simp only [subtreeF, Option.map_eq_some_iff] at hl
+    obtain ⟨d, hd, rfl⟩ := hl
+    refine ⟨r, hr, ?_⟩
+    rcases List.mem_cons.1 hxl with rfl | hxd
+    · exact Or.inl rfl
+    · exact Or.inr (descF_sound _ _ _ _ hd x hxd)
+  · rintro ⟨r, hr, hx⟩
+    obtain ⟨l, hl, hsub⟩ := (members_spec env mem hm).1 r hr
+    simp only [subtreeF, Option.map_eq_some_iff] at hl
+    obtain ⟨d, hd, rfl⟩ := hl
+    apply hsub
+    rcases hx with rfl | hx
+    · exact List.mem_cons_self
+    · exact List.mem_cons_of_mem _ (descF_complete _ _ _ _ hd x hx)
+
+theorem members_lt (env : Env) (hw : WFE env) (mem : List Uid) (hm : members env = some mem) :
+    ∀ x ∈ mem, x < env.n := by
+  intro x hx
+  obtain ⟨r, hr, h⟩ := (members_iff env mem hm x).1 hx
+  rcases h with rfl | h
+  · exact hw.rootsLt _ hr
+  · rcases TC.tail_cases h with h | ⟨b, _, h⟩
+    · exact hw.childLt _ _ h
+    · exact hw.childLt _ _ h
+
+/-- descendants of members are members -/
+theorem members_desc (env : Env) (mem : List Uid) (hm : members env = some mem) {x y : Uid} (hx : x ∈ mem)
+    (h : TC (chE env) x y) : y ∈ mem := by
+  induction h with
+  | single h => exact members_children env mem hm _ hx _ h
+  | tail _ h ih => exact members_children env mem hm _ ih _ h
+
+/-- the parent of a member is a member -/
+theorem members_parent (env : Env) (hw : WFE env) (mem : List Uid) (hm : members env = some mem) {x p : Uid}
+    (hx : x ∈ mem) (hp : (env.info x).parent = some p) : p ∈ mem := by
+  obtain ⟨r, hr, h⟩ := (members_iff env mem hm x).1 hx
+  rcases h with rfl | h
+  · rw [hw.rootsTop _ hr] at hp; cases hp
+  · have hrm : r ∈ mem := members_root env mem hm r hr
+    rcases TC.tail_cases h with h | ⟨b, hb, h⟩
+    · have := (hw.parentIff x r).2 h
+      rw [this] at hp
+      cases hp
+      exact hrm
+    · have := (hw.parentIff x b).2 h
+      rw [this] at hp
+      cases hp
+      exact members_desc env mem hm hrm hb
+
+/-! ### ancestors -/
+
+/-- "has as parent" -/
+abbrev parE (env : Env) : Uid → Uid → Prop := fun a b => (env.info a).parent = some b
+
+theorem TC_ch_par (env : Env) (hw : WFE env) {a b : Uid} (h : TC (chE env) a b) : TC (parE env) b a :=
+  TC.flip (TC.mono (r' := fun x y => parE env y x) (fun x y hxy => (hw.parentIff y x).2 hxy) h)
+
+theorem TC_par_ch (env : Env) (hw : WFE env) {a b : Uid} (h : TC (parE env) b a) : TC (chE env) a b :=
+  TC.mono (r' := chE env) (fun x y hxy => (hw.parentIff y x).1 hxy) (TC.unflip h)
+
+/-- the ancestor walk finds every ancestor that is at most `f` steps away -/
+theorem ancestorsOf_complete (env : Env) : ∀ (f : Nat) (l u : Uid), TC (parE env) l u →
+    (∀ p, IsPath (fun x => ((env.info x).parent).toList) l p → p.length ≤ f) → u ∈ ancestorsOf env f l := by
+  intro f
+  induction f with
+  | zero =>
+    intro l u h hp
+    rcases TC.head_cases h with h | ⟨q, h, _⟩
+    · have := hp [u] ⟨by simp [h], trivial⟩
+      simp at this
+    · have := hp [q] ⟨by simp [h], trivial⟩
+      simp at this
+  | succ f ih =>
+    intro l u h hp
+    have step : ∀ q, (env.info l).parent = some q → (u = q ∨ TC (parE env) q u) → u ∈ ancestorsOf env (f + 1) l := by
+      intro q hq hu
+      simp only [ancestorsOf, hq]
+      rcases hu with rfl | hu
+      · exact List.mem_cons_self
+      · refine List.mem_cons_of_mem _ (ih q u hu ?_)
+        intro p hpath
+        have := hp (q :: p) ⟨by simp [hq], hpath⟩
+        simpa using this
+    rcases TC.head_cases h with h | ⟨q, h, hrest⟩
+    · exact step u h (Or.inl rfl)
+    · exact step q h (Or.inr hrest)
+
+/-- an upward walk from a member stays inside the members -/
+theorem parPath_members (env : Env) (hw : WFE env) (mem : List Uid) (hm : members env = some mem) :
+    ∀ (p : List Uid) (l : Uid), l ∈ mem → IsPath (fun x => ((env.info x).parent).toList) l p → ∀ x ∈ p, x ∈ mem := by
+  intro p
+  induction p with
+  | nil => intro l _ _ x hx; cases hx
+  | cons b p ih =>
+    intro l hl hpath x hx
+    have hb : b ∈ mem := members_parent env hw mem hm hl (by simpa using hpath.1)
+    rcases List.mem_cons.1 hx with rfl | hx
+    · exact hb
+    · exact ih b hb hpath.2 x hx
+
+theorem parPath_length (env : Env) (hw : WFE env) (mem : List Uid) (hm : members env = some mem)
+    (l : Uid) (hl : l ∈ mem) (p : List Uid) (hpath : IsPath (fun x => ((env.info x).parent).toList) l p) :
+    p.length ≤ env.n + 1 := by
+  have hac : ∀ x, ¬ TC (fun a b => b ∈ (fun x => ((env.info x).parent).toList) a) x x := by
+    intro x hx
+    refine hw.forest x (TC_par_ch env hw (TC.mono (r' := parE env) ?_ hx))
+    intro a b hab
+    simpa using hab
+  have hn := (List.nodup_cons.1 (hpath.nodup hac)).2
+  have := nodup_lt_length_le env.n p hn (fun x hx =>
+    members_lt env hw mem hm x (parPath_members env hw mem hm p l hl hpath x hx))
+  omega
+
+/-- a member's ancestor list contains all its ancestors -/
+theorem ancestorsOf_member (env : Env) (hw : WFE env) (mem : List Uid) (hm : members env = some mem)
+    {u l : Uid} (hl : l ∈ mem) (h : TC (chE env) u l) : u ∈ ancestorsOf env (env.n + 1) l :=
+  ancestorsOf_complete env _ l u (TC_ch_par env hw h) (fun p hp => parPath_length env hw mem hm l hl p hp)
+
+/-! ### leaves and the leaf-level waits-for relation -/
+
+/-- `l` is a leaf at or below `x` -/
+def Lf (env : Env) (x l : Uid) : Prop := (env.info l).children.isEmpty = true ∧ (l = x ∨ TC (chE env) x l)
+
+theorem Lf.below {env : Env} {x y l : Uid} (h : Lf env y l) (hxy : TC (chE env) x y) : Lf env x l := by
+  refine ⟨h.1, Or.inr ?_⟩
+  rcases h.2 with rfl | h2
+  · exact hxy
+  · exact TC.trans hxy h2
+
+theorem Lf_exists_of_paths (env : Env) : ∀ (k : Nat) (x : Uid),
+    (∀ p, IsPath (kidsOf env) x p → p.length < k) → ∃ l, Lf env x l := by
+  intro k
+  induction k with
+  | zero => intro x h; exact absurd (h [] trivial) (Nat.lt_irrefl 0)
+  | succ k ih =>
+    intro x h
+    cases hc : (env.info x).children with
+    | nil => exact ⟨x, by simp [hc], Or.inl rfl⟩
+    | cons c cs =>
+      have hcx : c ∈ (env.info x).children := by rw [hc]; exact List.mem_cons_self
+      obtain ⟨l, hl⟩ := ih c (fun p hp => Nat.lt_of_succ_lt_succ (h (c :: p) ⟨hcx, hp⟩))
+      exact ⟨l, hl.below (TC.single hcx)⟩
+
+/-- every task has a leaf at or below it -/
+theorem WFE.Lf_exists {env : Env} (hw : WFE env) (x : Uid) : ∃ l, Lf env x l :=
+  Lf_exists_of_paths env (env.n + 1) x (fun _ hp => Nat.lt_succ_of_le (hp.length_le hw.forest hw.childLt))
+
+theorem Lf_leavesOf (env : Env) (hw : WFE env) {p l : Uid} (h : Lf env p l) : l ∈ (leavesOf env p).getD [] := by
+  unfold leavesOf
+  split
+  · rename_i hp
+    rcases h.2 with rfl | h2
+    · simp
+    · exfalso
+      have hnil : ∀ c, ¬ c ∈ (env.info p).children := by
+        intro c hc; rw [List.isEmpty_iff.1 hp] at hc; cases hc
+      rcases TC.head_cases h2 with hc | ⟨c, hc, _⟩
+      · exact hnil _ hc
+      · exact hnil _ hc
+  · rename_i hp
+    obtain ⟨d, hd⟩ := hw.descF_total p
+    rw [hd]
+    simp only [Option.map_some, Option.getD_some, List.mem_filter]
+    rcases h.2 with rfl | h2
+    · exact absurd h.1 hp
+    · exact ⟨descF_complete _ _ _ _ hd l h2, h.1⟩
+
+theorem leavesOf_lt (env : Env) (hw : WFE env) {p l : Uid} (hp : p < env.n) (h : l ∈ (leavesOf env p).getD []) :
+    l < env.n := by
+  unfold leavesOf at h
+  split at h
+  · simp only [Option.getD_some, List.mem_singleton] at h
+    subst h; exact hp
+  · cases hd : descF (kidsOf env) (env.n + 1) p with
+    | none => rw [hd] at h; simp at h
+    | some d =>
+      rw [hd] at h
+      simp only [Option.map_some, Option.getD_some, List.mem_filter] at h
+      have := descF_sound _ _ _ _ hd l h.1
+      rcases TC.tail_cases this with h' | ⟨b, _, h'⟩
+      · exact hw.childLt _ _ h'
+      · exact hw.childLt _ _ h'
+
+theorem waitsFor_lt (env : Env) (hw : WFE env) (a b : Uid) (h : b ∈ waitsFor env a) : b < env.n := by
+  unfold waitsFor at h
+  obtain ⟨p, hp, hb⟩ := List.mem_flatMap.1 h
+  obtain ⟨x, _, hpx⟩ := List.mem_flatMap.1 hp
+  exact leavesOf_lt env hw (hw.predLt x p hpx) hb
+
+/-- a leaf below a member task `u` waits for every leaf of every predecessor of `u` -/
+theorem waitsFor_mem (env : Env) (hw : WFE env) (mem : List Uid) (hm : members env = some mem)
+    {u p l l' : Uid} (hu : u ∈ mem) (hp : p ∈ (env.info u).preds) (hl : Lf env u l) (hl' : Lf env p l') :
+    l' ∈ waitsFor env l := by
+  unfold waitsFor
+  refine List.mem_flatMap.2 ⟨p, List.mem_flatMap.2 ⟨u, ?_, hp⟩, Lf_leavesOf env hw hl'⟩
+  rcases hl.2 with rfl | h2
+  · exact List.mem_cons_self
+  · exact List.mem_cons_of_mem _ (ancestorsOf_member env hw mem hm (members_desc env mem hm hu h2) h2)
+
+/-! ### a cycle of calls yields a leaf-level cycle -/
+
+theorem call_TC_cases (env : Env) (links kids : Uid → List Uid) (Q : Uid → Prop) (R : Uid → Uid → Prop)
+    (hne : ∀ x, ∃ l, Lf env x l)
+    (hkid : ∀ a b, b ∈ kids a → b ∈ (env.info a).children)
+    (hlink : ∀ a b, Q a → b ∈ links a → (env.info b).member = (env.info a).member →
+      ∀ l l', Lf env a l → Lf env b l' → R l l') {x y : Uid}
+    (h : TC (callE env links kids Q) x y) :
+    TC (chE env) x y ∨ ∃ l, Lf env x l ∧ ∀ l', Lf env y l' → TC R l l' := by
+  induction h with
+  | single h =>
+    obtain ⟨hq, h | h⟩ := h
+    · obtain ⟨l, hl⟩ := hne _
+      exact Or.inr ⟨l, hl, fun l' hl' => TC.single (hlink _ _ hq h.1 h.2 l l' hl hl')⟩
+    · exact Or.inl (TC.single (hkid _ _ h))
+  | tail hab h ih =>
+    rename_i b c
+    obtain ⟨hq, h | h⟩ := h
+    · obtain ⟨l2, hl2⟩ := hne b
+      rcases ih with ih | ⟨l, hl, ih⟩
+      · exact Or.inr ⟨l2, hl2.below ih, fun l' hl' => TC.single (hlink _ _ hq h.1 h.2 l2 l' hl2 hl')⟩
+      · exact Or.inr ⟨l, hl, fun l' hl' => TC.tail (ih l2 hl2) (hlink _ _ hq h.1 h.2 l2 l' hl2 hl')⟩
+    · have hbc : TC (chE env) b c := TC.single (hkid _ _ h)
+      rcases ih with ih | ⟨l, hl, ih⟩
+      · exact Or.inl (TC.trans ih hbc)
+      · exact Or.inr ⟨l, hl, fun l' hl' => ih l' (hl'.below hbc)⟩
+
+theorem callE_source {env : Env} {links kids : Uid → List Uid} {Q : Uid → Prop} {x y : Uid}
+    (h : TC (callE env links kids Q) x y) : Q x := by
+  induction h with
+  | single h => exact h.1
+  | tail _ _ ih => exact ih
+
+/-- no cycle of calls, given that the leaf-level relation `R` has no cycle through a leaf below a `Q` task -/
+theorem call_acyclic (env : Env) (hw : WFE env) (links kids : Uid → List Uid) (Q : Uid → Prop) (R : Uid → Uid → Prop)
+    (hkid : ∀ a b, b ∈ kids a → b ∈ (env.info a).children)
+    (hlink : ∀ a b, Q a → b ∈ links a → (env.info b).member = (env.info a).member →
+      ∀ l l', Lf env a l → Lf env b l' → R l l')
+    (hR : ∀ x l, Q x → Lf env x l → ¬ TC R l l) :
+    ∀ x, ¬ TC (callE env links kids Q) x x := by
+  intro x h
+  rcases call_TC_cases env links kids Q R hw.Lf_exists hkid hlink h with h' | ⟨l, hl, h'⟩
+  · exact hw.forest x h'
+  · exact hR x l (callE_source h) hl (h' l hl)
 
 end Pj
